@@ -3,12 +3,16 @@ package main
 import (
 	"verifharness/kit/driver"
 	"verifharness/props/c01"
+	"verifharness/props/c04"
 	"verifharness/props/c07"
 	"verifharness/props/c24"
+	"verifharness/props/c28"
 )
 
 var checks = map[string]driver.Check{
 	"C01": {Level: "fault_enumeration", Fn: c01.Run},
+	"C04": {Level: "exploration", Fn: c04.Run},
 	"C07": {Level: "fault_enumeration", Fn: c07.Run},
 	"C24": {Level: "exploration", Fn: c24.Run},
+	"C28": {Level: "exploration", Fn: c28.Run},
 }
